@@ -19,7 +19,8 @@ PLAN  = {"quick":    {"shards": 8, "parallel": 5, "cases": 120,  "timeout": 900}
          "thorough": {"shards": 8, "parallel": 5, "cases": 3000, "timeout": 6000}}
 REQUIRED = ["oracle.exactly-once", "oracle.pid-quota", "oracle.exception-contract", "oracle.abandon", "observed.restarts",
             "observed.multi-worker-runs", "perturb.line-events", "oracle.reuse-same-object", "oracle.none-outputs", "oracle.exception-hard-to-transport"]
-ASSUMPTIONS = ["items and outputs can be pickled (an output that cannot travel between processes is outside the quantifier); None is a legal item and a legal output",
+ASSUMPTIONS = ["resource exhaustion over hundreds of worker replacements (descriptors kept per finished worker until RLIMIT_NOFILE is reached) is not explored: the deadlock inspector of the case process keeps every started worker object alive itself, so a low descriptor limit makes the harness run out of descriptors on the unchanged code too",
+               "items and outputs can be pickled (an output that cannot travel between processes is outside the quantifier); None is a legal item and a legal output",
                "CobaMultiprocessor deliberately turns the RuntimeError family into coba_exit (spawn bootstrapping guard): through it such an exception may reach the caller as CobaExit carrying the message", "order of outputs is not asserted (multiset)",
                "a hang is a violation only when the logical deadlock state is established (all workers dead, loader and callback "
                "threads finished, consumer blocked in queue.get); any other watchdog firing is inconclusive",
